@@ -376,6 +376,49 @@ def flushEvents : List Act → List Event
   | .write ws :: rest => .batch ws :: flushEvents rest
   | _ :: rest => flushEvents rest
 
+/-! ### the memory layer of trie.Database across commits that may fail (trie/database.go `Commit`, `commit`, `uncache`) -/
+
+/-- the dirty nodes of the memory layer: hash ↦ the objects the node references -/
+abbrev Mem := List (Hash × List Hash)
+
+def memGet : Mem → Hash → Option (List Hash)
+  | [], _ => none
+  | (h', cs) :: rest, h => if h' = h then some cs else memGet rest h
+
+/-- `Database.commit(hash, batch)` on the memory layer: a node that is not in memory is "previously committed" (skipped);
+    otherwise children first, then the node.  The Go recursion is unbounded (the node graph is acyclic); `fuel` bounds the
+    depth, `commitFuelOK` says the bound was not hit. -/
+def commitMem (m : Mem) : Nat → Hash → List (Hash × List Hash)
+  | 0, _ => []
+  | fuel + 1, h =>
+    match memGet m h with
+    | none => []
+    | some cs => cs.flatMap (commitMem m fuel) ++ [(h, cs)]
+
+def commitFuelOK (m : Mem) : Nat → Hash → Bool
+  | 0, h => (memGet m h).isNone
+  | fuel + 1, h =>
+    match memGet m h with
+    | none => true
+    | some cs => cs.all (commitFuelOK m fuel)
+
+/-- `uncache`: the committed nodes leave the memory layer -/
+def uncache (m : Mem) (puts : List (Hash × List Hash)) : Mem := m.filter fun e => !(puts.map (·.1)).contains e.1
+
+/-- one `Commit(root)`.  `okPrefix = none`: every flush succeeded — all puts are on disk and the nodes are uncached.
+    `okPrefix = some k`: a flush failed after the first `k` puts had reached the disk (the batches flushed before it) and
+    `Commit` returns the error: as written the memory layer is left untouched (`keepOnFailure = true`); the seeded change
+    C04-7 uncached anyway (`false`). -/
+def commitStep (keepOnFailure : Bool) (fuel : Nat) (md : Mem × Db) (root : Hash) (okPrefix : Option Nat) : Mem × Db :=
+  let puts := commitMem md.1 fuel root
+  match okPrefix with
+  | none => (uncache md.1 puts, puts.foldl putNode md.2)
+  | some k => (if keepOnFailure then md.1 else uncache md.1 puts, (puts.take k).foldl putNode md.2)
+
+/-- every dirty node's references are dirty themselves or on disk -/
+def MemClosed (m : Mem) (db : Db) : Prop :=
+  ∀ h cs, memGet m h = some cs → ∀ c ∈ cs, (memGet m c).isSome = true ∨ (get db (.node c)).isSome = true
+
 /-! ### the block cache in front of the store (`bc.blockCache`) -/
 
 /-- hash ↦ cached block; `GetBlock` answers from it without looking at the store -/
